@@ -16,6 +16,7 @@ import PgProofs.NotifyEdit
 import PgProofs.NotifyBatch
 import PgProofs.NotifyRead
 import PgProofs.NotifyReentrant
+import PgProofs.NotifyThreads
 namespace Pg.C09
 open T
 open Pg.C08 (Atom Key NotifyKind)
@@ -668,6 +669,38 @@ theorem C09_reentrant_fresh (react : React) (hreact : ∀ id rp rop, react id = 
     | some x =>
       obtain ⟨rp, rop⟩ := x
       exact C09_reentrant_fresh react hreact f t' rp rop ht' (hreact id rp rop hr)
+
+/-! ## Threads: the switch `notify_on_change` is local to the thread that set it -/
+
+/-- After ANY history of scope entries / exits and calls by any number of threads over the two
+trees, the stack of scopes of thread `t` is its initial stack with its own scope actions applied:
+what other threads enter or leave never shows in it. -/
+theorem C09_switch_thread_local (t : Nat) (hist : List NStep) (s : NState) :
+    (runN s hist).stacks t = (ownNActs t hist).foldl NAct.apply (s.stacks t) :=
+  runN_stacks t hist s
+
+/-- … so a thread that is inside no `notify_on_change` scope of its own makes fully notified calls,
+whatever scopes other threads have opened in the meantime: its call on a node of the first tree is
+`step _ recv true op` on the current tree — the call every contract theorem above speaks about
+(`C09_contract`, `C09_bulk_*`, `C09_fresh`, …) — and likewise on the second tree. -/
+theorem C09_other_threads_do_not_silence (t : Nat) (hist : List NStep) (s : NState)
+    (h0 : s.stacks t = []) (hown : ownNActs t hist = []) (recv : Path) (op : Op) :
+    (stepN (runN s hist) (.call t false recv true op)).2 = step (runN s hist).tree recv true op ∧
+    (stepN (runN s hist) (.call t true recv true op)).2 = step (runN s hist).ext recv true op := by
+  have hs : (runN s hist).stacks t = [] := by rw [runN_stacks, hown, h0]; rfl
+  simp [stepN, hs, switchOn]
+
+/-- … and a thread inside its own `notify_on_change(False)` is silent, whatever the others do. -/
+theorem C09_own_scope_silences (t : Nat) (s : NState) (rest : List Bool) (hs : s.stacks t = false :: rest)
+    (inExt w : Bool) (recv : Path) (op : Op) :
+    (stepN s (.call t inExt recv w op)).2 = step (if inExt then s.ext else s.tree) recv false op := by
+  cases inExt <;> simp [stepN, hs, switchOn]
+
+/-- A call on a node of one tree leaves the other tree exactly as it was (contents and memos). -/
+theorem C09_call_stays_in_its_tree (s : NState) (t : Nat) (recv : Path) (w : Bool) (op : Op) :
+    (stepN s (.call t true recv w op)).1.tree = s.tree ∧
+    (stepN s (.call t false recv w op)).1.ext = s.ext := by
+  simp [stepN]
 
 /-- A root dict whose cache is filled, holding one leaf. -/
 def exRoot : T :=
